@@ -14,7 +14,7 @@ Case recipes (JSON):
       labels are only registered with add_edge_label; each rule is (lhs, labels of the rhs edges).
 """
 from __future__ import annotations
-import itertools, json, random, time, warnings
+import hashlib, itertools, json, random, time, warnings
 from typing import Any, Dict, List, Tuple
 
 from vf.core import Ctx, Report, Bounded, Failure
@@ -276,7 +276,36 @@ def check_ntg_case(case) -> List[Tuple[str, str]]:
                 out.append(("dependency_order", f"{x} depends on {y} but is scheduled in an earlier component; "
                                                 f"comps={[[v.name for v in c] for c in comps]}"))
                 break
+    # "... and every nonterminal receives a value": the consumer of the schedule, on grammars in which some nonterminal is not
+    # needed by the start symbol (checked on a deterministic sample: those grammars, hashed into 1 of 4 buckets)
+    reach, todo = set(), [case["start"]]
+    while todo:
+        x = todo.pop()
+        if x in reach: continue
+        reach.add(x)
+        todo += [y for (a, y) in exp_edges if a == x]
+    if exp_keys - reach and not out and int(hashlib.sha256(canon(case).encode()).hexdigest(), 16) % 4 == 0:
+        out += every_nonterminal_gets_a_value(h, lab, exp_keys)
     return out
+
+
+def every_nonterminal_gets_a_value(h, lab, exp_keys) -> List[Tuple[str, str]]:
+    import fggs, torch
+    with warnings.catch_warnings():
+        warnings.simplefilter("ignore")
+        try:
+            fgg = fggs.FGG.from_hrg(h)
+            fgg.new_finite_domain("N", [0, 1])
+            for nm in TERMINALS:
+                if fgg.has_edge_label_name(nm):
+                    fgg.new_finite_factor(nm, torch.full((2,) * ARITY[nm], 0.125))
+            vals = fggs.sum_products(fgg, method="fixed-point", kmax=30, tol=1e-3)
+        except Exception as e:
+            return [("every_nonterminal_gets_a_value", f"sum_products raised {type(e).__name__}: {str(e)[:120]}; expected a value for every nonterminal")]
+    got = {el.name for el in vals if el.is_nonterminal}
+    if got != set(exp_keys):
+        return [("every_nonterminal_gets_a_value", f"sum_products returned values for {sorted(got)}; expected every nonterminal {sorted(exp_keys)}")]
+    return []
 
 
 def ntg_nontrivial(case):
